@@ -628,9 +628,10 @@ class PortNamespace(collections.abc.MutableMapping, Port):
         breadcrumbs_local = (*breadcrumbs, self.name)
         message: Optional[str]
 
-        if not port_values:
+        if port_values is None or port_values is UNSPECIFIED:
             port_values = {}
 
+        # (an empty value of another type, such as '' or [], is no more a valid namespace value than a non-empty one)
         if not isinstance(port_values, collections.abc.Mapping):
             message = f'specified value is of type {type(port_values)} which is not sub class of `Mapping`'
             return PortValidationError(message, breadcrumbs_to_port(breadcrumbs_local))
@@ -705,7 +706,10 @@ class PortNamespace(collections.abc.MutableMapping, Port):
             else:
                 port_value = port_values[name]
 
-            if isinstance(port, PortNamespace):
+            if isinstance(port, PortNamespace) and not isinstance(port_value, (collections.abc.Mapping, type(None))):
+                # Not a mapping, not even an empty one (such as '' or []): left as it is, for the validation to report
+                port_values[name] = port_value
+            elif isinstance(port, PortNamespace):
                 port_values[name] = port.pre_process(port_value)
             else:
                 port_values[name] = port_value
